@@ -31,7 +31,9 @@ type sessionDef struct {
 	src    string
 	stream bool
 	g, e   string
-	ot     string
+	// es: the evaluator's input as a list (one per member of a struct argument); e is unused then
+	es []string
+	ot string
 	// thorough: not part of the quick tier
 	thorough bool
 }
@@ -44,6 +46,13 @@ var sessions = []sessionDef{
 	{name: "stream-add/ideal", stream: true, src: "package main\nfunc main(a, b uint8) uint8 {\n\treturn a + b\n}\n", g: "200", e: "55", ot: "ideal"},
 	{name: "stream-if/ideal", stream: true, src: "package main\nfunc main(a, b uint4) (uint4, bool) {\n\tif a > b {\n\t\treturn a - b, true\n\t}\n\treturn b & a, false\n}\n", g: "9", e: "6", ot: "ideal"},
 	// more than 64 output bits, all of them 1: a garbler that keeps per-output state in a machine word
+	// one input bit reaches two outputs through XOR gates only: a corrupted input label shifts an even number of
+	// returned labels by the same difference (free-XOR is linear)
+	{name: "fanout-xor/ideal", src: "package main\nfunc main(a, b uint4) (uint4, uint4) {\n\treturn a ^ b, a\n}\n", g: "10", e: "3", ot: "ideal"},
+	// streaming: the evaluator learns the layout of its own argument from the garbler's program information; a
+	// compound (struct) or array argument has member sizes / an element type besides its total size
+	{name: "stream-structarg/ideal", stream: true, src: "package main\ntype Args struct {\n\tb uint8\n\tc uint8\n}\nfunc main(a uint8, e Args) uint8 {\n\treturn a + e.b + (e.c << 1)\n}\n", g: "90", es: []string{"0x33", "0x11"}, ot: "ideal"},
+	{name: "stream-arrayarg/ideal", stream: true, src: "package main\nfunc main(a uint8, e [2]uint8) uint8 {\n\treturn a + e[0] + (e[1] << 1)\n}\n", g: "90", e: "0x3311", ot: "ideal"},
 	{name: "xor72/ideal", src: "package main\nfunc main(a, b uint72) uint72 {\n\treturn a ^ b\n}\n", g: "0", e: "0xffffffffffffffffff", ot: "ideal"},
 	{name: "stream-or130/ideal", stream: true, thorough: true, src: "package main\nfunc main(a, b uint130) uint130 {\n\treturn a | b\n}\n", g: "1", e: "0x3fffffffffffffffffffffffffffffffe", ot: "ideal"},
 	{name: "cmp9-2out/co", thorough: true, src: "package main\nfunc main(a int9, b int9) (int9, bool) {\n\tif a > b {\n\t\treturn a - b, true\n\t}\n\treturn b - a, false\n}\n", g: "300", e: "17", ot: "co"},
@@ -83,7 +92,11 @@ func runSession(si int, o sess.Opts) *sess.Result {
 	s := sessions[si]
 	o.OT = s.ot
 	if s.stream {
-		return sess.RunStream(s.src, []string{s.g}, []string{s.e}, nil, o)
+		ein := []string{s.e}
+		if s.es != nil {
+			ein = s.es
+		}
+		return sess.RunStream(s.src, []string{s.g}, ein, nil, o)
 	}
 	return sess.RunCircuit(compiled(si), parseIn(s.g), parseIn(s.e), o)
 }
@@ -92,7 +105,21 @@ func runSession(si int, o sess.Opts) *sess.Result {
 func expected(si int) []*big.Int {
 	s := sessions[si]
 	c := compiled(si)
-	gin, ein := parseIn(s.g), parseIn(s.e)
+	var gin, ein *big.Int
+	if s.es != nil || (s.stream && strings.HasPrefix(s.e, "0x") && c.Inputs[1].Type.Type.Array()) {
+		es := s.es
+		if es == nil {
+			es = []string{s.e}
+		}
+		v, err := c.Inputs[1].Parse(es)
+		if err != nil {
+			panic(err)
+		}
+		ein = v
+	} else {
+		ein = parseIn(s.e)
+	}
+	gin = parseIn(s.g)
 	if s.stream && strings.HasPrefix(s.g, "0x") {
 		// array literal: let the library's own parser lay it out, as the streamer does
 		v, err := c.Inputs[0].Parse([]string{s.g})
@@ -210,9 +237,9 @@ func work(ctx *runner.Ctx) {
 		}
 		cases = append(cases, cs{Session: si, Dir: "none"})
 		type mut struct{ l, m int }
-		muts := []mut{{1, 0x01}, {1, 0x80}, {1, 0xff}, {2, 0xff}, {16, 0xff}}
+		muts := []mut{{1, 0x01}, {1, 0x80}, {1, 0xff}, {2, 0xff}, {16, 0xff}, {32, 0xff}}
 		if !quick {
-			muts = []mut{{1, 0x01}, {1, 0x02}, {1, 0x04}, {1, 0x08}, {1, 0x10}, {1, 0x20}, {1, 0x40}, {1, 0x80}, {1, 0xff}, {2, 0xff}, {4, 0xff}, {16, 0xff}, {17, 0x55}}
+			muts = []mut{{1, 0x01}, {1, 0x02}, {1, 0x04}, {1, 0x08}, {1, 0x10}, {1, 0x20}, {1, 0x40}, {1, 0x80}, {1, 0xff}, {2, 0xff}, {4, 0xff}, {16, 0xff}, {17, 0x55}, {32, 0xff}, {32, 0x80}, {48, 0xff}}
 		}
 		for dir, n := range map[string]int{"g2e": len(r.G2E), "e2g": len(r.E2G)} {
 			for off := 0; off < n; off++ {
